@@ -6,6 +6,10 @@ ROOT = os.path.dirname(os.path.dirname(os.path.abspath(__file__)))
 
 # id -> (level category, level text, level note, technique, design ref)
 CHECKS = {
+ "C02": ("exploration",
+   "Generated histories (1.5e3 x 40 calls quick; 4e4 x 60 + 2e3 x 400 thorough) of every Interface method and fine-grained BlobWriter operation run on a fresh ocimem registry in both tag modes; every return value is judged online by an independent sequential reference model and the whole observable state (listings from several start points, every resolve/get/referrers over the universe) is compared after every 8th call. Histories are sampled, not enumerated; a small colliding universe gives depth, a random one breadth.",
+   "Trusted: the reference model in internal/model (written from interface.go and the property text). Empty repositories may be unknown or empty; blob media types, message texts and PushManifest failure codes (interface.go documents none) are not compared.",
+   "runtime monitor: online differential against an executable sequential reference model", "3/C02"),
  "C09": ("exploration",
    "The real Scope runs next to a naive set model for every subset (512 quick / 4096 thorough) of a small universe of triples chosen around the representation's seams (catalog sentinel, empty names, unknown actions, opaque words), three constructions each, and for every ordered pair of subsets (2.6e5 / 1.7e7) for Equal/Contains/Union/text preservation, plus random sets over arbitrary field bytes. Exhaustive over the small universe; sampling beyond it.",
    "Trusted: the bitmask/map set model in cmd/c09. Round-trip is asserted only on the domain where text can represent the triple.",
